@@ -241,7 +241,9 @@ class DerivedLevel(Level):
             levels = sample[f]
             for j in range(window.width):
                 idx = i+(j-(window.width-1))*sustain_count
-                if idx >= 0:
+                # A factor has no level before the sequence starts or, when it is derived
+                # itself, in a trial that it does not apply to.
+                if idx >= 0 and f.applies_to_trial(idx // sustain_count + 1):
                     args.append(levels[idx].name)
                 else:
                     args.append(None)
